@@ -50,10 +50,10 @@ impl RaftIndexInnerManager {
                 mark_remove: false,
             });
             */
-            let mut buf = Vec::new();
+            // the 8-byte last-applied header is raw (write_last_applied_log rewrites exactly these 8 bytes
+            // and the index record always starts at offset 8), so it must not get a length prefix here
+            let mut buf = id_to_bin(0);
             let mut writer = Writer::new(&mut buf);
-            let header_buf = id_to_bin(0);
-            writer.write_bytes(&header_buf)?;
             writer.write_message(&index)?;
             file.seek(std::io::SeekFrom::Start(0)).await?;
             file.write_all(&buf).await?;
